@@ -355,7 +355,15 @@ def gt(a, b): return _cmp(a, b, '>')
 def ge(a, b): return _cmp(a, b, '>=')
 
 
+TOL = None      # set during replay: reals coming from native float runs are compared with tolerance
+
+
 def eq(a, b):
+    if TOL is not None and not isinstance(a, (Cx, SumT)) and not isinstance(b, (Cx, SumT)) \
+            and not (is_bool(a) or is_bool(b)) and (is_real(num(a)) or is_real(num(b))):
+        d = sub(a, b)
+        scale = add(1, add(abs_(a), abs_(b)))
+        return and_(le(d, mul(TOL, scale)), ge(d, neg(mul(TOL, scale))))
     if isinstance(a, Cx) or isinstance(b, Cx):
         a, b = cx(a), cx(b)
         return and_(eq(a.re, b.re), eq(a.im, b.im))
